@@ -411,11 +411,171 @@ def c04():
     return out
 
 
+# ---- C04: small programs over a reused name alphabet against a reference interpreter of the scoping rules ----
+class _Undefined(Exception):
+    pass
+
+
+def _c04_run(prog, data):
+    """reference semantics: loop scopes > assigned (global) > caller data > counters; assign/capture bind for the rest of the
+    render; a loop variable stops existing when its loop ends; output of an undefined name is an error"""
+    glob, counters, scopes, out = {}, {}, [], []
+
+    def lookup(n):
+        for sc in reversed(scopes):
+            if n in sc:
+                return sc[n]
+        if n in glob:
+            return glob[n]
+        if n in data:
+            return data[n]
+        if n in counters:
+            return counters[n]
+        raise _Undefined(n)
+
+    def run(stmts, sink):
+        for st in stmts:
+            k = st[0]
+            if k == "print":
+                sink.append(str(lookup(st[1])))
+            elif k == "assign_lit":
+                glob[st[1]] = st[2]
+            elif k == "assign_var":
+                glob[st[1]] = lookup(st[2])
+            elif k == "capture":
+                buf = []
+                run(st[2], buf)
+                glob[st[1]] = "".join(buf)
+            elif k == "incr":
+                v = counters.get(st[1], 0)
+                sink.append(str(v))
+                counters[st[1]] = v + 1
+            elif k == "decr":
+                v = counters.get(st[1], 0) - 1
+                counters[st[1]] = v
+                sink.append(str(v))
+            elif k == "for":
+                for i in range(st[2], st[3] + 1):
+                    scopes.append({st[1]: i})
+                    run(st[4], sink)
+                    scopes.pop()
+            elif k == "text":
+                sink.append(st[1])
+    try:
+        run(prog, out)
+    except _Undefined:
+        return None
+    return "".join(out)
+
+
+def _c04_src(stmts):
+    t = ""
+    for st in stmts:
+        k = st[0]
+        if k == "print":
+            t += "{{ %s }}" % st[1]
+        elif k == "assign_lit":
+            t += "{%% assign %s = %s %%}" % (st[1], st[2] if isinstance(st[2], int) else "'%s'" % st[2])
+        elif k == "assign_var":
+            t += "{%% assign %s = %s %%}" % (st[1], st[2])
+        elif k == "capture":
+            t += "{%% capture %s %%}%s{%% endcapture %%}" % (st[1], _c04_src(st[2]))
+        elif k == "incr":
+            t += "{%% increment %s %%}" % st[1]
+        elif k == "decr":
+            t += "{%% decrement %s %%}" % st[1]
+        elif k == "for":
+            t += "{%% for %s in (%d..%d) %%}%s{%% endfor %%}" % (st[1], st[2], st[3], _c04_src(st[4]))
+        elif k == "text":
+            t += st[1]
+    return t
+
+
+def c04_programs():
+    names = ("x", "y")
+    leaf = []
+    for n in names:
+        leaf += [("print", n), ("assign_lit", n, 2), ("assign_lit", n, "a"), ("incr", n), ("decr", n)]
+    leaf += [("assign_var", "x", "y"), ("assign_var", "y", "x"), ("assign_var", "x", "x")]
+    bodies = [[a] for a in leaf] + [[a, b] for a in leaf[:8] for b in leaf[:2]] + [[("assign_var", "x", "x"), ("print", "x")]]
+    blocks = []
+    for n in names:
+        for lo, hi in ((1, 2), (2, 2)):
+            for body in bodies:
+                blocks.append(("for", n, lo, hi, body))
+        for body in bodies[:12]:
+            blocks.append(("capture", n, [("text", "<")] + body + [("text", ">")]))
+    progs = []
+    tails = [[("print", "x")], [("print", "y")], [("print", "x"), ("incr", "x"), ("print", "x")]]
+    for pre in [[]] + [[a] for a in leaf]:
+        for blk in blocks:
+            for tail in tails:
+                progs.append(pre + [blk] + tail)
+    # nested loops reusing the same name
+    for inner in bodies[:10]:
+        progs.append([("for", "x", 1, 2, [("for", "x", 3, 3, inner), ("print", "x")]), ("print", "x")])
+    return progs
+
+
+def c04_generated(limit=1500):
+    out = []
+    progs = c04_programs()
+    step = max(1, len(progs) // limit)
+    for prog in progs[::step]:
+        for data in ({"x": "d"}, {}):
+            exp = _c04_run(prog, data)
+            out.append(R(_c04_src(prog), {"output": exp} if exp is not None else {"error": True}, data, "scoping reference interpreter"))
+    return out
+
+
 def c18(depth=2):
     return [{"kind": "stack_model", "depth": depth}] + c04()
 
 
-BATTERIES = {"C04": c04, "C05": c05, "C06": c06, "C07": c07, "C10": c10, "C13": c13, "C15": c15, "C18": c18}
+# ---- C02: every stdlib filter x every input kind x every argument kind (arity <= 2): output or error, never a panic ----
+FILTERS = {  # name: max arity
+    "abs": 0, "append": 1, "at_least": 1, "at_most": 1, "capitalize": 0, "ceil": 0, "compact": 1, "concat": 1, "date": 1, "default": 1,
+    "divided_by": 1, "downcase": 0, "escape": 0, "escape_once": 0, "first": 0, "floor": 0, "join": 1, "last": 0, "lstrip": 0, "map": 1,
+    "minus": 1, "modulo": 1, "newline_to_br": 0, "plus": 1, "prepend": 1, "remove": 1, "remove_first": 1, "replace": 2, "replace_first": 2,
+    "reverse": 0, "round": 1, "rstrip": 0, "size": 0, "slice": 2, "sort": 1, "sort_natural": 1, "split": 1, "strip": 0, "strip_html": 0,
+    "strip_newlines": 0, "times": 1, "truncate": 2, "truncatewords": 2, "uniq": 0, "upcase": 0, "url_decode": 0, "url_encode": 0, "where": 2,
+}
+C02_POOL = {
+    "nil": None, "t": True, "zero": 0, "neg": -3, "imax": I64_MAX, "imin": I64_MIN, "big": 10000, "m19": -19, "m64": -64, "half": 0.5, "tie": 2.5,
+    "fneg": -1.5, "huge": 1e300, "es": "", "blank": "  ", "s": "hello world", "num": "42", "u1": "AT&T 日本語のテキスト", "u2": "Max & Zoë Größer &amp; <b>é</b>",
+    "u3": "e\u0301\u0302x", "fmt": "%é %Y-%m-%d %", "pct": "%E9%zz+%", "ea": [], "mixed": [3, None, "x", 1.5, [1], {"k": 1}], "ints": [3, 1, 2],
+    "objs": [{"k": 2}, {"k": None}, {"j": 1}], "o": {"k": 1}, "d": "2020-02-29 23:59:59 +0000",
+}
+
+
+def c02_filters():
+    out = []
+    names = list(C02_POOL)
+    argnames = ["nil", "zero", "neg", "imax", "imin", "m19", "m64", "half", "es", "s", "u1", "fmt", "ea", "o"]
+    for f, ar in FILTERS.items():
+        for x in names:
+            out.append(R("{{ %s | %s }}" % (x, f), {"no_panic": True}, C02_POOL))
+            if ar >= 1:
+                for a in argnames:
+                    out.append(R("{{ %s | %s: %s }}" % (x, f, a), {"no_panic": True}, C02_POOL))
+            if ar >= 2:
+                for a, b2 in (("neg", "imax"), ("imin", "imin"), ("zero", "zero"), ("s", "u1"), ("es", "es"), ("nil", "neg"), ("imax", "u3"), ("m64", "half")):
+                    out.append(R("{{ %s | %s: %s, %s }}" % (x, f, a, b2), {"no_panic": True}, C02_POOL))
+    # tags and blocks with stressed parameters
+    for a in ("zero", "neg", "imax", "imin", "half", "es", "s", "nil", "ea", "o"):
+        out.append(R("{%% for x in ints limit:%s offset:%s %%}{{x}}{%% endfor %%}" % (a, a), {"no_panic": True}, C02_POOL))
+        out.append(R("{%% tablerow x in ints cols:%s limit:%s offset:%s %%}{{x}}{%% endtablerow %%}" % (a, a, a), {"no_panic": True}, C02_POOL))
+        if a not in ("imin", "imax"):   # the property excludes ranges wider than 10^4 (materialised eagerly)
+            out.append(R("{%% for x in (%s..%s) %%}.{%% endfor %%}" % (a, "zero"), {"no_panic": True}, C02_POOL))
+        out.append(R("{%% for x in %s %%}{{x}}{%% endfor %%}{%% cycle %s, %s %%}{{ mixed[%s] }}" % (a, a, a, a), {"no_panic": True}, C02_POOL))
+    return out
+
+
+def c04_all():
+    return c04() + c04_generated() + [{"kind": "stack_model", "depth": 2}]
+
+
+BATTERIES = {"C04": c04_all, "C05": c05, "C06": c06, "C07": c07, "C10": c10, "C13": c13, "C15": c15, "C18": c18}
 
 
 def battery(prop, thorough=False):
@@ -426,6 +586,7 @@ def battery(prop, thorough=False):
                R("{{ 99999999999999999999 }}", {"no_panic": True}, None, "C01 territory (parse_literal); reported only if it panics at render"),
                R("{{ 'abc' | slice: 1, 9223372036854775807 }}", {"no_panic": True}),
                R("{{ a | first }}{{ a | last }}{{ a | size }}{{ a | join: ',' }}{{ a | sort | reverse | uniq | compact | join: ',' }}", {"no_panic": True}, {"a": [3, None, "x", 1.5, [1], {"k": 1}]})]
+        out += c02_filters()
         for p, f in BATTERIES.items():
             for w in f():
                 if w["kind"] == "render":
